@@ -48,6 +48,8 @@ class CallMixin:
             if isinstance(val, (classmethod,)):
                 return [(s, py(BoundMethod(py(type(obj)), attr, val.__func__)))]
             return [(s, self.lift(getattr(obj, attr)))]
+        if k == "opt" and self.spec_mode:
+            return self.getattr(s, self.unwrap(base), attr, node)   # specifications are total: value unspecified on None
         if k == "opt":
             isn = self.is_none(base)
             bad, ok = self.branch(s, isn, "none?")
@@ -101,6 +103,7 @@ class CallMixin:
             idx = list(self.reg.fields[name]).index(field)
             return Val(fty, srt.accessor(0, idx)(obj.t))
         arr = self.heap_array(s, name, field)
+        self.heap_reads.add(f"{name}.{field}")
         return Val(fty, z3.Select(arr, obj.t))
 
     def heap_array(self, s, cls, field):
@@ -225,6 +228,13 @@ class CallMixin:
             model = None
         if model is not None:
             return model(self, s, args, kwargs, node)
+        from .api import UFun
+        if isinstance(obj, UFun):
+            tys = [self.reg.parse(t) for t in obj.argtypes]
+            rty = self.reg.parse(obj.rettype)
+            f = self.uf("ghost_" + obj.name, [self.reg.sort(t) for t in tys], self.reg.sort(rty))
+            cargs = [self.coerce(a, t) for a, t in zip(args, tys)]
+            return [(s, Val(rty, f(*[a.t for a in cargs])))]
         if isinstance(obj, type):
             return self.construct(s, obj, args, kwargs, node)
         if isinstance(obj, pytypes.FunctionType):
@@ -424,6 +434,10 @@ class CallMixin:
             return outs
         if kind == "ref":
             ref = self.fresh(self.reg.ty_of_class(name), "new_" + name)
+            news = dict(s.ghost.get("__new__", {}))
+            news[name] = news.get(name, []) + [ref.t]
+            s = s.copy()
+            s.ghost["__new__"] = news
             init = inspect.getattr_static(cls, "__init__", None)
             c = self.contracts.get(f"{cls.__module__}.{cls.__qualname__}.__init__")
             if isinstance(init, pytypes.FunctionType):
@@ -482,6 +496,8 @@ class CallMixin:
         return fnode, module, tys, ret
 
     def apply_contract(self, s, c, func, args, kwargs, node):
+        if self.binder_depth > 0:
+            raise Unsupported(f"contract of {c.qualname} applied under a quantifier/comprehension binder: mark it inline or use a spec function")
         fnode, module, tys, ret = self.contract_param_types(c, func)
         env = self.bind_args(fnode, func, args, kwargs, s)
         for p, v in list(env.items()):
@@ -549,6 +565,10 @@ class CallMixin:
         return outs
 
     def emit(self, s, name, goal, note="", kind="valid"):
+        if kind == "valid" and z3.is_expr(goal) and z3.is_and(goal) and goal.num_args() > 1:
+            for k, g in enumerate(goal.children()):     # one obligation per conjunct: smaller queries, named failures
+                self.emit(s, f"{name}/c{k}", g, note=note, kind=kind)
+            return
         goal = z3.simplify(goal) if z3.is_expr(goal) else goal
         if kind == "valid" and z3.is_true(goal):
             self.stats["trivial_obligations"] += 1
